@@ -217,7 +217,7 @@ PROPS = {
     },
     "C14": {
         "kani": [],
-        "verus": ["H"],
+        "verus": ["H", "B"],
         "trusted_base": ["Verus 0.2026.09.13 + Z3 (unit H: extracted into_protocol_request and the endpoint closure of Client::send)"],
         "assumptions": [
             "http-types is third-party: the request is an opaque value seen through assumed accessor contracts (is_empty = declared length known and zero, take_body/into_bytes read the body to its end, method(), url(), Display of Method/Url); a body declared empty reads as empty (axiom empty_body_reads_empty)",
@@ -225,7 +225,7 @@ PROPS = {
             "rule X17 (synchronous projection) as for C16",
         ],
         "not_decided": [
-            "everything the builders delegate to http-types (header insertion, content types for string/JSON/form/byte bodies, query encoding): third-party code without contracts",
+            "what http-types computes for a body, a content type or a query (Body::from_json/from_string/from_form, Request::set_body/set_content_type/set_query: uninterpreted state transformers); unit B proves that every setter of crux_http::Request and of both RequestBuilders hands exactly the value the app gave to exactly one such call and touches nothing else; the header setters (insert_header/append_header with impl ToHeaderValues) are not extracted",
             "the ORDER of headers in the protocol request is the hash map's iteration order (C11, F6) - C14 compares header sets",
             "that each API call emits exactly one request effect: proved per piece - the endpoint closure of Client::send (capability API) and the lifted task of command::RequestBuilder::build (command API) each ask the shell exactly once with exactly the converted request; `Command::request_from_shell(op).into_future(ctx).await` is an assumed call (its constructor is proved in unit X)",
         ],
